@@ -53,3 +53,56 @@ package variants
 //@   after append#2: assert [del] gDel && gDelRef != 0 && variants[len(variants)-1].Changetype == "del" && variants[len(variants)-1].Position == gDelRef + 1 && variants[len(variants)-1].Length == gDelLen
 //@   after append#3: assert [ins.end] gIns && variants[len(variants)-1].Changetype == "ins" && variants[len(variants)-1].Position == gInsRef && variants[len(variants)-1].Length == gInsLen
 //@   ensures len(result) == ite(gIns, gEmit + 1, gEmit)
+
+//@ spec posOf(k int) int uninterpreted
+//@ spec keepPos(p int, start int, end int) bool = (start <= 0 || p >= start) && (end <= 0 || p <= end)
+//@ spec fmtVariant(v Variant, appendSNP bool) string = ite(v.Changetype == "del", "del:" + itoa(v.Position) + ":" + itoa(v.Length), ite(v.Changetype == "ins", "ins:" + itoa(v.Position) + ":" + itoa(v.Length), ite(v.Changetype == "nuc", "nuc:" + v.RefAl + itoa(v.Position) + v.QueAl, ite(appendSNP, "aa:" + v.Feature + ":" + v.RefAl + itoa(v.Residue) + v.QueAl + "(" + v.SNPs + ")", "aa:" + v.Feature + ":" + v.RefAl + itoa(v.Residue) + v.QueAl))))
+//@ spec validType(v Variant) bool = v.Changetype == "del" || v.Changetype == "ins" || v.Changetype == "nuc" || v.Changetype == "aa"
+
+//@ func FormatVariant
+//@   ensures (result2 == nil) == validType(v)
+//@   ensures implies(validType(v), result1 == fmtVariant(v, appendSNP))
+
+//@ # C15 (window), C12 (order), C19 (failed writes reported), C15 (stdin: first record missing => indices start at 1).
+//@ func WriteVariants
+//@   modifies w, cErr, cWriteDone
+//@   requires forall(k, ite(firstmissing, 1, 0), ite(firstmissing, 1, 0) + len(recv(cVariants)), 0 <= posOf(k) && posOf(k) < len(recv(cVariants)) && recv(cVariants)[posOf(k)].Idx == k)
+//@   requires forall(a, 0, len(recv(cVariants)), ite(firstmissing, 1, 0) <= recv(cVariants)[a].Idx && recv(cVariants)[a].Idx < ite(firstmissing, 1, 0) + len(recv(cVariants)) && posOf(recv(cVariants)[a].Idx) == a)
+//@   loop 1:
+//@     invariant ite(firstmissing, 1, 0) <= counter && counter <= ite(firstmissing, 1, 0) + len(recv(cVariants)) && !in(outputMap, counter)
+//@     invariant forallint(k, in(outputMap, k) == (counter <= k && k < ite(firstmissing, 1, 0) + len(recv(cVariants)) && posOf(k) < range_i))
+//@     invariant forall(k, counter, ite(firstmissing, 1, 0) + len(recv(cVariants)), implies(posOf(k) < range_i, outputMap[k] == recv(cVariants)[posOf(k)]))
+//@     invariant forall(k, ite(firstmissing, 1, 0), counter, posOf(k) < range_i)
+//@     invariant !failed(w) && len(sent(cErr)) == 0 && len(sent(cWriteDone)) == 0
+//@   loop 2:
+//@     invariant ite(firstmissing, 1, 0) <= counter && counter <= ite(firstmissing, 1, 0) + len(recv(cVariants))
+//@     invariant forallint(k, in(outputMap, k) == (counter <= k && k < ite(firstmissing, 1, 0) + len(recv(cVariants)) && posOf(k) < range_i + 1))
+//@     invariant forall(k, counter, ite(firstmissing, 1, 0) + len(recv(cVariants)), implies(posOf(k) < range_i + 1, outputMap[k] == recv(cVariants)[posOf(k)]))
+//@     invariant forall(k, ite(firstmissing, 1, 0), counter, posOf(k) < range_i + 1)
+//@     invariant !failed(w) && len(sent(cErr)) == 0 && len(sent(cWriteDone)) == 0
+//@     decreases ite(firstmissing, 1, 0) + len(recv(cVariants)) - counter
+//@   loop 3:
+//@     invariant !failed(w) && len(sent(cErr)) == 0 && len(sent(cWriteDone)) == 0
+//@     invariant len(sa) == count(k, 0, range_i, keepPos(VL.Vs[k].Position, start, end))
+//@     invariant forall(j, 0, range_i, validType(VL.Vs[j]) || !keepPos(VL.Vs[j].Position, start, end))
+//@     invariant forall(j, 0, range_i, implies(keepPos(VL.Vs[j].Position, start, end), sa[count(k, 0, j, keepPos(VL.Vs[k].Position, start, end))] == fmtVariant(VL.Vs[j], appendSNP)))
+//@   before call:Write#2: assert [order] VL == recv(cVariants)[posOf(counter)] && VL.Queryname != refID
+//@   before call:Write#3: assert [window.len] len(sa) == count(k, 0, len(VL.Vs), keepPos(VL.Vs[k].Position, start, end))
+//@   before call:Write#3: assert [window.content] forall(j, 0, len(VL.Vs), implies(keepPos(VL.Vs[j].Position, start, end), sa[count(k, 0, j, keepPos(VL.Vs[k].Position, start, end))] == fmtVariant(VL.Vs[j], appendSNP)))
+//@   after call:Write#3: assert [row] written(w)[len(written(w))-2] == VL.Queryname + "," && written(w)[len(written(w))-1] == join(sa, "|") + "\n"
+//@   ensures [c19.reported] implies(failed(w), len(sent(cErr)) >= 1 && len(sent(cWriteDone)) == 0)
+//@   ensures [c12.done] implies(!failed(w) && len(sent(cErr)) == 0, len(sent(cWriteDone)) == 1)
+
+//@ # C19 for the aggregate writer: every failed Write is reported on cErr and the done signal is withheld.
+//@ func AggregateWriteVariants
+//@   modifies w, cErr, cWriteDone
+//@   loop 1:
+//@     invariant !failed(w) && len(sent(cErr)) == 0 && len(sent(cWriteDone)) == 0 && len(written(w)) == 1
+//@   loop 2:
+//@     invariant !failed(w) && len(sent(cErr)) == 0 && len(sent(cWriteDone)) == 0 && len(written(w)) == 1
+//@   loop 3:
+//@     invariant !failed(w) && len(sent(cErr)) == 0 && len(sent(cWriteDone)) == 0 && len(written(w)) == 1
+//@   loop 4:
+//@     invariant !failed(w) && len(sent(cErr)) == 0 && len(sent(cWriteDone)) == 0
+//@   ensures [c19.reported] implies(failed(w), len(sent(cErr)) >= 1 && len(sent(cWriteDone)) == 0)
+//@   ensures [c12.done] implies(!failed(w) && len(sent(cErr)) == 0, len(sent(cWriteDone)) == 1)
